@@ -5,6 +5,7 @@ import Rl.Spec.EdOracle
 import Rl.Spec.OracleNav
 import Rl.Spec.OracleSearch
 import Rl.Spec.OracleComplete
+import Rl.Spec.OracleKillUndo
 namespace Rl.Drv.Ed
 open Rl Rl.Wire Rl.Spec
 
@@ -20,6 +21,8 @@ def handle (tbl : CharTable) (target : String) (f : List String) (impl : String)
         else if target == "ed13" then firstFail [oracleC17 o, oracleC13 cfg.validator o]
         else if target == "ed07" then firstFail [oracleC17 o, oracleC07 cfg.hist cfg.hasCompleter (!cfg.listCompletion) o]
         else if target == "ed08" then firstFail [oracleC17 o, oracleC08 cfg.hist o]
+        else if target == "ed06" then firstFail [oracleC17 o, oracleC06 o]
+        else if target == "ed05" then firstFail [oracleC17 o, oracleC05 tbl.alnum cfg.hasCompleter (!cfg.hist.isEmpty) o]
         else if target == "ed14" then firstFail [oracleC17 o, oracleC14 cfg.completer (!cfg.listCompletion) o]
         else none
       pure (model, verdictStr v)
